@@ -67,8 +67,13 @@ package k8s
 //@ # lookup itself failed
 //@ ghost c09geterr error
 //@ ghost c09nf bool = false
+//@ ghost c03pod *corev1.Pod
 //@ func k8s.PodExist
 //@   requires k != nil
 //@   at call getPod: ghost c09geterr = result1
 //@   at call errors.IsNotFound: ghost c09nf = result
 //@   ensures c09geterr != nil && !c09nf ==> result1 != nil
+//@   # "gone" is answered only when the object was not found or is bound to another node: an object that is still on this
+//@   # node — whatever its phase — exists (its sandbox may not have been torn down yet)
+//@   at call getPod: ghost c03pod = result0
+//@   ensures result1 == nil && !result0 ==> (c09geterr != nil && c09nf) || (c09geterr == nil && c03pod.Spec.NodeName != k.nodeName)
